@@ -212,7 +212,7 @@ class FA(Automaton, metaclass=abc.ABCMeta):
         None marks the absence of a state, and the empty string marks a
         lambda transition.
         """
-        if None in self.states:
+        if None in self.states or None in self.transitions:
             raise exceptions.InvalidStateError("None cannot be used as a state name")
         if "" in self.input_symbols:
             raise exceptions.InvalidSymbolError(
